@@ -3,7 +3,7 @@
    source stays "inside the fragment" although the reference no longer
    describes what a browser and the lexer do (witnesses in props/C06.v):
    a show whose body holds a comment with the closing braces inside, a show
-   between the name of an end tag and its ">", a backslash in front of an
+   (or a quoted ">") between the name of an end tag and its ">", a backslash in front of an
    end tag inside a string literal of a script, and a show inside a shebang
    line.  o_strict closes them.
    o_raw = false leaves the fragment at the start of a script or style
@@ -104,10 +104,10 @@ Fixpoint ref_run2 (o : ropt) (fuel : nat) (st : rstate) (off : N) (s : bytes) (a
                 if match nth_error r (S (length elem)) with Some t => (t =? 47) || (t =? 12) | None => false end then None else
                 match index_byte r 62 with
                 | Some k =>
-                  (* strict: no delimiter between the name of the end tag and its ">" *)
-                  if o_strict o && existsb (N.eqb 123) (take k r) then None
+                  (* strict: nothing but white space between the name of the end tag and its ">" *)
+                  if o_strict o && negb (forallb is_ws (skipn (S (length elem)) (take k r))) then None
                   else ref_run2 o f RData (off + 1 + k + 1) (drop (k + 1) r) acc
-                | None => if o_strict o && existsb (N.eqb 123) r then None else Some (rev acc)
+                | None => if o_strict o && negb (forallb is_ws (skipn (S (length elem)) r)) then None else Some (rev acc)
                 end
               else None
             | _ => None
